@@ -437,7 +437,7 @@ def depth_dataflow(fn, pushes, pops):
 
 
 LAZY_ADAPTORS = ("map", "chain", "filter", "filter_map", "flat_map", "zip", "rev", "enumerate", "skip", "take", "cloned",
-                 "copied", "once", "iter", "into_iter", "peekable", "inspect", "flatten", "map_while", "take_while", "skip_while")
+                 "copied", "once", "iter", "into_iter", "peekable", "inspect", "flatten", "map_while", "take_while", "skip_while", "from_fn")
 
 
 def site_anchors(F, fn, body, bi):
